@@ -32,6 +32,11 @@ pub fn install_panic_hook() {
 struct Guard(usize, Log);
 impl Drop for Guard {
     fn drop(&mut self) {
+        // what a callback owns may take time to release: a stop that is acknowledged before the callbacks are
+        // dropped then shows deterministically instead of in a microsecond window
+        if self.0 % 2 == 1 {
+            std::thread::sleep(Duration::from_millis(2));
+        }
         self.1.lock().unwrap().push(L::Drop(self.0));
     }
 }
@@ -366,6 +371,87 @@ pub fn race_case(rng: &mut Rng, id: String) -> Case {
     case
 }
 
+/// a burst of registrations on a fresh router, one more registration from a second thread landing while the router thread
+/// is busy installing the burst, then *no further registration*: every route must still get what was queued on it before
+/// registration and what is sent afterwards, and drop its callback on disconnection
+pub fn burst_case(rng: &mut Rng, idx: u64, id: String) -> Case {
+    let mut case = Case::new(id);
+    let log: Log = Arc::new(Mutex::new(Vec::new()));
+    let proxy = Arc::new(RouterProxy::new());
+    let n = rng.range(16, 40) as usize;
+    let delay_us = (idx * 13) % 600;
+    // channels with one message queued before registration
+    let mut chans = Vec::new();
+    for r in 0..n {
+        let (tx, rx) = ipc::channel::<u64>().unwrap();
+        tx.send(r as u64 * 10).unwrap();
+        chans.push((tx, Some(rx)));
+    }
+    let last_rx = chans[n - 1].1.take().unwrap();
+    let mk = |r: usize, log: &Log| {
+        let guard = Guard(2 * r, log.clone()); // even numbers: no artificial delay on drop
+        let l2 = log.clone();
+        Box::new(move |m: ipc_channel::ipc::OpaqueIpcMessage| {
+            let _g = &guard;
+            let v: u64 = m.to().unwrap_or(u64::MAX);
+            l2.lock().unwrap().push(L::Invoke(r, v));
+        })
+    };
+    let p2 = proxy.clone();
+    let log2 = log.clone();
+    let cb_last = mk(n - 1, &log);
+    let hb = std::thread::spawn(move || {
+        let t0 = Instant::now();
+        while t0.elapsed() < Duration::from_micros(delay_us) {
+            std::hint::spin_loop();
+        }
+        p2.add_route(last_rx.to_opaque(), cb_last);
+        let _ = log2;
+    });
+    for r in 0..n - 1 {
+        let rx = chans[r].1.take().unwrap();
+        proxy.add_route(rx.to_opaque(), mk(r, &log));
+    }
+    let _ = hb.join();
+    // silence, then one more message per route
+    std::thread::sleep(Duration::from_millis(15));
+    for (r, (tx, _)) in chans.iter().enumerate() {
+        let _ = tx.send(r as u64 * 10 + 1);
+    }
+    let ok = wait_for(
+        &log,
+        |l| (0..n).all(|r| l.contains(&L::Invoke(r, r as u64 * 10)) && l.contains(&L::Invoke(r, r as u64 * 10 + 1))),
+        3000,
+    );
+    if !ok {
+        let l = log.lock().unwrap().clone();
+        let missing: Vec<usize> = (0..n).filter(|r| !(l.contains(&L::Invoke(*r, *r as u64 * 10)) && l.contains(&L::Invoke(*r, *r as u64 * 10 + 1)))).collect();
+        case.fail(format!(
+            "routes {:?} of {} did not receive their messages within 3 s (burst registration, last route registered from a second thread {} us later, no registration afterwards)",
+            missing, n, delay_us
+        ));
+    } else {
+        // per-route order: the message queued before registration first
+        let l = log.lock().unwrap().clone();
+        for r in 0..n {
+            let seq: Vec<u64> = l.iter().filter_map(|e| if let L::Invoke(x, t) = e { if *x == r { Some(*t) } else { None } } else { None }).collect();
+            if seq != vec![r as u64 * 10, r as u64 * 10 + 1] {
+                case.fail(format!("route {} saw {:?}", r, seq));
+            }
+        }
+        drop(chans);
+        if !wait_for(&log, |l| (0..n).all(|r| l.contains(&L::Drop(2 * r))), 3000) {
+            case.fail("a callback was not dropped after its channel disconnected".into());
+        }
+    }
+    case.pair("noop".into(), "ok".into());
+    case.nontrivial = true;
+    case.key = format!("burst:{}:{}", n, delay_us);
+    case.tags.push("mode=burst_registration".into());
+    proxy.shutdown();
+    case
+}
+
 pub fn run(args: &[String]) {
     let mode = arg(args, "--mode").unwrap_or("seq".into());
     let thorough = arg(args, "--tier").as_deref() == Some("thorough");
@@ -376,9 +462,10 @@ pub fn run(args: &[String]) {
     for i in 0..n {
         let c = match mode.as_str() {
             "seq" => seq_case(&mut rng, format!("rseq-{}", i)),
+            "burst" => burst_case(&mut rng, i, format!("rburst-{}", i)),
             _ => race_case(&mut rng, format!("rrace-{}", i)),
         };
-        let abandon = c.tags.iter().any(|t| t == "deadlock");
+        let abandon = c.tags.iter().any(|t| t == "deadlock") || (mode == "burst" && c.oracle.is_some());
         c.emit();
         if abandon {
             std::process::exit(0);
